@@ -176,6 +176,16 @@ class Integer(_PrimitiveType):
             return NotImplemented
 
     @_intrinsic
+    def __rmul__(self, lhs: int | Integer) -> Integer:
+        if isinstance(lhs, (int, Integer)):
+            lhs = Integer.decay(lhs)
+            rhs = self._val
+
+            return Integer(lhs * rhs)
+        else:
+            return NotImplemented
+
+    @_intrinsic
     def __floordiv__(self, rhs: int | Integer) -> Integer:
         raise AssertionError(
             f"CoHDL does not support floordiv (the '//' operator) for signed operations. Use cohdl.op.truncdiv instead."
@@ -205,6 +215,19 @@ class Integer(_PrimitiveType):
         if isinstance(rhs, (int, Integer)):
             lhs = self._val
             rhs = Integer.decay(rhs)
+
+            if rhs == 0:
+                return Integer()
+            return Integer(lhs % rhs)
+        else:
+            return NotImplemented
+
+    @_intrinsic
+    def __rmod__(self, lhs: int | Integer) -> Integer:
+
+        if isinstance(lhs, (int, Integer)):
+            lhs = Integer.decay(lhs)
+            rhs = self._val
 
             if rhs == 0:
                 return Integer()
